@@ -104,8 +104,10 @@ func w0(ch *chain.Chain, c *c18case) *sim.World {
 	return &sim.World{Gen: c.Gen, Chain: ch, Model: sim.NewModel(c.Gen)}
 }
 
-// dropFailed removes the transactions whose result code in the reference digest is non-zero.
-// kept[block] lists the surviving tx indices (nil when nothing failed).
+// dropFailed removes the multi-message transactions whose result code in the reference digest is
+// non-zero (an earlier message of theirs may have changed state before the rollback). Failed
+// single-message transactions stay: they must fail again, identically.
+// kept[block] lists the surviving tx indices (nil when nothing is dropped).
 func dropFailed(c *c18case, ref digest) (*c18case, map[int][]int) {
 	failed := map[string]bool{}
 	for _, p := range ref.Parts {
@@ -113,6 +115,14 @@ func dropFailed(c *c18case, ref digest) (*c18case, map[int][]int) {
 		var rest string
 		if n, _ := fmt.Sscanf(p, "block%d.tx%d=%s", &b, &t, &rest); n == 3 && !strings.HasPrefix(rest, "code:0/") {
 			failed[fmt.Sprintf("%d.%d", b, t)] = true
+		}
+	}
+	for k := range failed {
+		var b, t int
+		fmt.Sscanf(k, "%d.%d", &b, &t)
+		bz, _ := hex.DecodeString(c.Blocks[b].Txs[t])
+		if tx, err := chain.DecodeTx(bz); err != nil || len(tx.GetMsgs()) < 2 {
+			delete(failed, k)
 		}
 	}
 	if len(failed) == 0 {
